@@ -15,7 +15,7 @@ def describe(tier):
         "nested compound rebuilt from its own (buffer, offset) must agree with the constructor-side handles: value at every index, shape, strides, "
         "size, per-item and per-field offsets. (b) history system on the history sub-universe: after every write of a leaf or whole compound through "
         "the handle, the view or a nested view, both sides are re-read and compared (a write through one is seen through the other).",
-        bounds=dict(universe="as C01", history_types=len(universe.rh(tier)), depth=2 if tier == "quick" else 3, forms=FORMS),
+        bounds=dict(universe="as C01", history_types=len(universe.rh(tier)), depth="2" if tier == "quick" else "3 (ramp values), 2 (extreme, minimal)", forms=FORMS),
         assumptions=["a stand-alone union reference has no view of its own: _from_buffer yields its target, which is compared with get()"],
         must_fire=["construct", "set"],
     )
@@ -200,7 +200,7 @@ def run_shard(shard, tier, seed):
         res.max_depth = max(res.max_depth, 1)
     else:
         _, t, vmode, pname = shard
-        seen = hist.explore(t, vmode, pname, 2 if tier == "quick" else 3, OPTS, judge_hist, res, seed)
+        seen = hist.explore(t, vmode, pname, 2 if tier == "quick" or vmode != "ramp" else 3, OPTS, judge_hist, res, seed)
         if seen:
             res.states = res.nontrivial = len(seen)
             if len(res.samples) < 1:
